@@ -32,7 +32,8 @@ T_FLAG_VALUE = "c02-flag-name-as-keyword-value"     # fixed 2de8cc8: `key=only` 
 T_BACKSLASH = "c02-string-ending-in-backslash"      # fixed d29898a: "a\\\\" followed by more arguments raised TemplateSyntaxError (the \\" was taken for an escaped quote)
 
 CTX = {"i": 5, "s": "str", "l": [1, 2, 3], "d": {"a": 1, "b": 2}, "n": None, "t": True, "o": {"k": "v w", "z": [7, 8]},
-       "e": [], "q": "it's \"q\"", "only": "ONLY", "required": 9, "D": {"Aa": 1, "b-c": 2, "Cc": 3}}
+       "e": [], "q": "it's \"q\"", "only": "ONLY", "required": 9, "D": {"Aa": 1, "b-c": 2, "Cc": 3},
+       "I": {1: "one", "k": 2}}
 
 CORPUS = [
     {"body": "...d|default:d", "expect": [[], {"a": 1, "b": 2}], "trigger": T_SPREAD_FILTER},
@@ -514,7 +515,11 @@ INVALID = [  # documented as invalid -> TemplateSyntaxError, never re-interprete
 
 EXPLORE = [  # outside the statement / undocumented: reported in the evidence, never an alarm
     "k = 1", "a=[1 2]", ":href=1", "a=[* [1, 2]]", "a={** {'x': 1}}", "a={**d|default:d}", "a=[1,,2]", "data-id=1 data-id=2", "a={'k' 1}",
+    "...I y=2", "x=1 ...I", "a={**I}", "a=[*d]", "x=/",
+    # the implementation spreads ANY iterable of pairs with ** (dict.update) where Python's {**x} demands a mapping; both models follow the code
+    "a={**e}", "a={**l}", "a={**s}", "a={**n}", "a={'k': 1, **[['k', 2], 'ab']}", "a={**o.none}",
 ]
+EXPLORE_NOMODEL = []
 
 
 # ---------------------------------------------------------------------------------------------
@@ -545,11 +550,15 @@ def value_term(v, oth):
     return "(VOther %s)" % cN(oth.id(v))
 
 
+COMPILE_FAILED = [False]      # set by build_env: some leaf of the text does not even compile (unknown filter, empty expression, ...)
+
+
 def build_env(text, ctx, oth):
     """leaf text -> value, by compiling every leaf of the implementation's AST with Django (None when a leaf fails)."""
     from django.template import Context
     from django_components.util.tag_parser import parse_tag, TagValue
     parser = django_parser()
+    COMPILE_FAILED[0] = False
     try:
         _, attrs = parse_tag(text, parser)
     except Exception:  # noqa
@@ -567,6 +576,11 @@ def build_env(text, ctx, oth):
             if s not in env:
                 try:
                     n.compile(parser)
+                except Exception:  # noqa
+                    env[s] = "None"
+                    COMPILE_FAILED[0] = True
+                    continue
+                try:
                     env[s] = "(Some %s)" % value_term(n.resolve(c), oth)
                 except Exception:  # noqa
                     env[s] = "None"
@@ -588,7 +602,7 @@ def case_term(tag, allowed, text, ctx, res, closed):
                                     clist(["(%s, %s)" % (value_term(k, oth), value_term(v, oth)) for k, v in kwargs.items()]),
                                     clist([cstr(f) for f in fl]), cbool(closed))
     else:
-        out = "RFail %s" % RERR.get(res[1], "EOther")
+        out = "RFail %s" % ("EAny" if COMPILE_FAILED[0] else RERR.get(res[1], "EOther"))
     return "(mkrcase %s %s %s %s (%s))" % (cstr(tag), clist([cstr(a) for a in allowed]), clist(env), cstr(text), out)
 
 
@@ -650,7 +664,7 @@ def run(tier, seed):
                                         clist(["(%s, %s)" % (value_term(k, oth), value_term(v, oth)) for k, v in res[2].items()]),
                                         clist([cstr(f) for f in fl]), cbool(slash))
         else:
-            out = "RFail %s" % RERR.get(res[1], "EOther")
+            out = "RFail %s" % ("EAny" if COMPILE_FAILED[0] else RERR.get(res[1], "EOther"))
         sterms.append("(mkscase %s %s %s %s (mkarglist %s %s) %s (%s) %s)" % (
             cstr(tag), clist([cstr(a) for a in allowed]), clist(env), c_table(adjust_table(table, kind)),
             clist([c_item(it) for it in items]), cbool(slash), cstr(text), out, cbool(kind == "probe")))
@@ -741,11 +755,12 @@ def run(tier, seed):
                     model_case(kind, b2 + " /", True, res)
         # ---- 3. exploration outside the statement + mutations: model == implementation only ----
         explore = {}
-        for body in EXPLORE:
+        for body in EXPLORE + EXPLORE_NOMODEL:
             res = pr.run(sources("probe", body, True), CTX)
             explore[body] = repr(res[:3])
             chk.count(("explore", body), True, kind="explore")
-            model_case("probe", body, True, res)
+            if body not in EXPLORE_NOMODEL:
+                model_case("probe", body, True, res)
         chk.extra["outside_statement_observed"] = explore
         for _ in range(6000 if thorough else 700):
             al = gen_arglist(rng, ["required", "only"])
